@@ -88,6 +88,9 @@ func (c *VerifScriptConn) Read(p []byte) (int, error) {
 		data = c.Data[c.Rpos][:n]
 	} else {
 		data = verifnd.Bytes(c.Name+".data", n)
+		for _, b := range data {
+			verifnd.Prefer(b == 0) // report the simplest stream of the counterexample's class
+		}
 	}
 	c.Rpos++
 	copy(p, data)
@@ -144,12 +147,13 @@ func VerifSetClient(ip string) { verifClientAddr = &net.TCPAddr{IP: net.ParseIP(
 
 // VerifAdmit builds, tracks and validates a registration for the given secret
 // the way the ingest pipeline does (without liveness probe and covert checks).
-func (rm *RegistrationManager) VerifAdmit(secret []byte, tt pb.TransportType, params *anypb.Any, covert string) *DecoyRegistration {
+func (rm *RegistrationManager) VerifAdmit(secret []byte, tt pb.TransportType, params *anypb.Any, covert string, v6 ...bool) *DecoyRegistration {
 	src := pb.RegistrationSource_API
+	want6 := len(v6) > 0 && v6[0]
 	w := &pb.C2SWrapper{SharedSecret: secret, RegistrationSource: &src, RegistrationAddress: net.ParseIP("203.0.113.77").To4(),
-		RegistrationPayload: &pb.ClientToStation{V4Support: proto.Bool(true), Transport: &tt, TransportParams: params,
+		RegistrationPayload: &pb.ClientToStation{V4Support: proto.Bool(!want6), V6Support: proto.Bool(want6), Transport: &tt, TransportParams: params,
 			DecoyListGeneration: proto.Uint32(1), ClientLibVersion: proto.Uint32(4), CovertAddress: &covert}}
-	reg, err := rm.NewRegistrationC2SWrapper(w, false)
+	reg, err := rm.NewRegistrationC2SWrapper(w, want6)
 	if err != nil || reg == nil {
 		return nil
 	}
